@@ -887,6 +887,8 @@ class KernelProof(object):
 
     def replay(self, model):
         from contracts import kernel_replay
+        if self.magnetic:
+            return kernel_replay.replay_magnetic(self.model)
         return kernel_replay.replay(self.model, self.kind)
 
 
